@@ -190,3 +190,95 @@ def check_pipeline(repo: Repo, where: str) -> tuple[int, list[tuple[str, str]]]:
                         except (ModelRaise, re.error) as err:
                             bad.append(("the fused SKIP pattern cannot be built", f"{desc}: {err}"))
     return n, bad
+
+
+def check_skip_pass(repo: Repo, where: str) -> tuple[int, list[tuple[str, str]]]:
+    """O16: the skip pass, evaluated from its syntax tree on a family of loop shapes.  `(!X ~ ANY)*` may become a
+    search for the earliest terminator only when X is, after following groups, choices and rule references, a plain
+    set of case-sensitive string literals - then the terminators are exactly those literals; any other shape (another
+    predicate, another second element, a third element, a range, a case-insensitive literal, a sequence, a
+    self-referential rule, a repetition other than `*`) must be left as it is."""
+    cm = program(repo, where)
+    if "skip" not in cm.env:
+        raise AnalysisError("anchor vanished: the skip pass")
+    consts = repo.mod("src/pest/grammar/rule.py").constants()
+    SIL = consts["SILENT"]
+    any_rule = cm.new("BuiltInRule", "ANY", cm.new("String", "<any>"), SIL) if "Any" not in cm.classes else cm.new("Any")
+    S = lambda v: cm.new("String", v)  # noqa: E731
+    CI = lambda v: cm.new("CIString", v)  # noqa: E731
+    ID = lambda v: cm.new("Identifier", v)  # noqa: E731
+    CH = lambda *xs: cm.new("Choice", *xs)  # noqa: E731
+    G = lambda x: cm.new("Group", x)  # noqa: E731
+    SEQ = lambda *xs: cm.new("Sequence", *xs)  # noqa: E731
+    NOT = lambda x: cm.new("NegativePredicate", x)  # noqa: E731
+    AND = lambda x: cm.new("PositivePredicate", x)  # noqa: E731
+    REP = lambda x: cm.new("Repeat", x)  # noqa: E731
+    rules = {
+        "ANY": any_rule,
+        "lits": cm.new("Rule", "lits", CH(S("a"), S("bc")), 0),
+        "nested": cm.new("Rule", "nested", CH(ID("lits"), S("d")), SIL),
+        "ci": cm.new("Rule", "ci", CH(S("a"), CI("b")), 0),
+        "seq": cm.new("Rule", "seq", SEQ(S("a"), S("b")), 0),
+        "loop": cm.new("Rule", "loop", CH(S("a"), ID("loop")), 0),
+        "rng": cm.new("Rule", "rng", CH(S("a"), cm.new("Range", "b", "c")), 0),
+    }
+    any_forms = [("ANY (node)", lambda: any_rule), ("ANY (reference)", lambda: ID("ANY"))]
+    cases: list[tuple[str, object, tuple | None]] = []
+    for aname, mk_any in any_forms:
+        t = f" ~ {aname}"
+        cases += [
+            (f'(!"x"{t})*', lambda mk_any=mk_any: REP(G(SEQ(NOT(S("x")), mk_any()))), ("x",)),
+            (f'(!("a" | "bc"){t})*', lambda mk_any=mk_any: REP(G(SEQ(NOT(G(CH(S("a"), S("bc")))), mk_any()))), ("a", "bc")),
+            (f'(!("a" | ("b" | "c")){t})*', lambda mk_any=mk_any: REP(G(SEQ(NOT(G(CH(S("a"), G(CH(S("b"), S("c")))))), mk_any()))), ("a", "b", "c")),
+            (f"(!lits{t})*", lambda mk_any=mk_any: REP(G(SEQ(NOT(ID("lits")), mk_any()))), ("a", "bc")),
+            (f"(!nested{t})*", lambda mk_any=mk_any: REP(G(SEQ(NOT(ID("nested")), mk_any()))), ("a", "bc", "d")),
+            (f'(!(lits | "z"){t})*', lambda mk_any=mk_any: REP(G(SEQ(NOT(G(CH(ID("lits"), S("z")))), mk_any()))), ("a", "bc", "z")),
+            (f'(!""{t})*', lambda mk_any=mk_any: REP(G(SEQ(NOT(S("")), mk_any()))), ("",)),
+            # must be declined
+            (f'(!^"x"{t})*', lambda mk_any=mk_any: REP(G(SEQ(NOT(CI("x")), mk_any()))), None),
+            (f"(!ci{t})*", lambda mk_any=mk_any: REP(G(SEQ(NOT(ID("ci")), mk_any()))), None),
+            (f"(!seq{t})*", lambda mk_any=mk_any: REP(G(SEQ(NOT(ID("seq")), mk_any()))), None),
+            (f"(!loop{t})*", lambda mk_any=mk_any: REP(G(SEQ(NOT(ID("loop")), mk_any()))), None),
+            (f"(!rng{t})*", lambda mk_any=mk_any: REP(G(SEQ(NOT(ID("rng")), mk_any()))), None),
+            (f"(!undefined{t})*", lambda mk_any=mk_any: REP(G(SEQ(NOT(ID("undefined")), mk_any()))), None),
+            (f'(!("a" ~ "b"){t})*', lambda mk_any=mk_any: REP(G(SEQ(NOT(G(SEQ(S("a"), S("b")))), mk_any()))), None),
+            (f'(&"x"{t})*', lambda mk_any=mk_any: REP(G(SEQ(AND(S("x")), mk_any()))), None),
+            (f'(!"x"{t}{t})*', lambda mk_any=mk_any: REP(G(SEQ(NOT(S("x")), mk_any(), mk_any()))), None),
+            (f'("q" ~ !"x"{t})*', lambda mk_any=mk_any: REP(G(SEQ(S("q"), NOT(S("x")), mk_any()))), None),
+            (f'({aname} ~ !"x")*', lambda mk_any=mk_any: REP(G(SEQ(mk_any(), NOT(S("x"))))), None),
+            (f'(!"x"{t})?', lambda mk_any=mk_any: cm.new("Optional", G(SEQ(NOT(S("x")), mk_any()))), None),
+            (f'(!"x"{t})', lambda mk_any=mk_any: G(SEQ(NOT(S("x")), mk_any())), None),
+        ]
+    cases += [
+        ('(!"x" ~ "y")*', lambda: REP(G(SEQ(NOT(S("x")), S("y")))), None),
+        ('(!"x" ~ lits)*', lambda: REP(G(SEQ(NOT(S("x")), ID("lits")))), None),
+        ('(!"x" | ANY)*', lambda: REP(G(CH(NOT(S("x")), any_rule))), None),
+    ]
+    bad: list[tuple[str, str]] = []
+    for desc, mk, want in cases:
+        node = mk()
+        before = shape(node)
+        try:
+            out = cm.env["skip"](node, rules)
+        except ModelRaise as err:
+            bad.append(("the skip pass raises on a well-formed expression", f"`{desc}`: {err}"))
+            continue
+        got = shape(out)
+        if want is None:
+            if out is not node or got != before:
+                bad.append(("the skip pass rewrites a loop that is not a search for plain literals", f"`{desc}` becomes {got}"))
+        else:
+            if not (isinstance(got, tuple) and got[0] == "SkipUntil"):
+                continue  # declining is always allowed
+            if got[1] != want and sorted(got[1]) == sorted(want):
+                continue  # the order of terminators does not matter to an earliest-hit search
+            if got[1] != want:
+                miss = [x for x in want if x not in got[1]]
+                extra = [x for x in got[1] if x not in want]
+                cat = "the skip pass loses a terminator of the loop" if miss else "the skip pass collects a terminator the loop does not have" if extra else "the skip pass collects a terminator twice"
+                if not miss and not extra:
+                    continue  # duplicates do not change an earliest-hit search
+                bad.append((cat, f"`{desc}` becomes {got}, the loop stops at {want}"))
+        if shape(node) != before:
+            bad.append(("the skip pass changes the expression it was given in place", f"`{desc}`"))
+    return len(cases), bad
